@@ -281,6 +281,18 @@ impl Updater {
         if let Some(ref warm_up) = self.warm_up {
             let _ = warm_up.finish_tx.send(());
         }
+        #[cfg(nomt_verif)]
+        crate::verif_api::split_trace::push(crate::verif_api::split_trace::Event::Update {
+            read_write: read_write
+                .iter()
+                .map(|(k, rw)| match rw {
+                    KeyReadWrite::Read => (*k, 0u8, None),
+                    KeyReadWrite::Write(v) => (*k, 1u8, *v),
+                    KeyReadWrite::ReadThenWrite(v) => (*k, 2u8, *v),
+                })
+                .collect(),
+            witness,
+        });
         let shared = Arc::new(UpdateShared {
             witness,
             overlay: self.overlay.clone(),
